@@ -194,6 +194,12 @@ def gen_cases(rng, tier):
         # the presses run down the plain path b m and the overlap group is never recognised)
         shadow = any(s2 is not target and any(o == presses[:len(o)] or cpl(o, presses) >= 2 for o in flat_orders(s2))
                      and (any(it3[0] == 'ov' for it3 in target) or any(it3[0] == 'ov' for it3 in s2)) for s2 in seqs)
+        # the same ambiguity with a modifier: written as a plain member in one sequence and as the modifier of a chorded item in another
+        # (`(lsft)` next to `(S-(b n) n)`: the tapped shift is also the beginning of the chorded item)
+        MODK = {'S': 'lsft', 'C': 'lctl', 'A': 'lalt', 'RA': 'ralt', 'M': 'lmet'}
+        plain_mods = lambda sq: {it4[1] for it4 in sq if it4[0] == 'k' and it4[1] in MODK.values()}
+        chord_mods = lambda sq: {MODK[it4[1]] for it4 in sq if it4[0] == 'mod'}
+        shadow = shadow or any(s2 is not target and ((plain_mods(target) & chord_mods(s2)) or (chord_mods(target) & plain_mods(s2))) for s2 in seqs)
         cases.append({'id': 'c12-run-%d' % i, 'cfg': cfg, 'hist': h, 'sub': 'ksim', 'kind': kind, 'mode': mode, 'always': always,
                       'shadow': shadow, 'target_vk': seqs.index(target), 'tags': {'kind': kind + ('-slow' if slow else ''), 'mode': mode, 'always_on': always, 'shadowed': shadow, 'os_repeats': reps}})
     # structured tables for the backtracking and the release path (judged by correspondence): an overlap group whose keys also start a
